@@ -424,6 +424,15 @@ fn sorenson_cases(tier: Tier) -> Vec<Case> {
             }
         }
     }
+    // long chains of supplemental bytes: any per-header counter passes 255/256, 512, 65535/65536
+    for n in [4usize, 15, 16, 17, 127, 128, 254, 255, 256, 257, 300, 511, 512, 513, 1000, 65535, 65536, 65537] {
+        if n > 2000 && !tier.thorough() && n != 65536 {
+            continue;
+        }
+        let mut h = base.clone();
+        h.pei = (0..n).map(|k| (k as u8).wrapping_mul(37) ^ 0x5A).collect();
+        push(h);
+    }
     v
 }
 
@@ -486,6 +495,19 @@ pub fn run(tier: Tier) -> Report {
                 cases.push(Case { h: H::Std(h), scal: true, prev: None, phase: 0, stuff: 0, label: "layers" });
             }
         }
+    }
+    // long PEI/PSUPP chains in both H.263 header kinds
+    for n in [4usize, 15, 16, 17, 127, 128, 254, 255, 256, 257, 300, 511, 512, 513, 1000, 65535, 65536, 65537] {
+        if n > 2000 && !tier.thorough() && n != 65536 {
+            continue;
+        }
+        let bytes: Vec<u8> = (0..n).map(|k| (k as u8).wrapping_mul(29) ^ 0xC3).collect();
+        let mut h = lean.clone();
+        h.pei = bytes.clone();
+        cases.push(Case { h: H::Std(h), scal: n % 2 == 0, prev: None, phase: 0, stuff: 0, label: "long-pei" });
+        let mut b = StdHdr::baseline(2, true, 0x31, 11);
+        b.pei = bytes;
+        cases.push(Case { h: H::Std(b), scal: false, prev: None, phase: 0, stuff: 0, label: "long-pei" });
     }
     // baseline PTYPE
     let bf = baseline_fields();
